@@ -294,7 +294,7 @@ def main():
             continue
         ev_n += d["evaluations"]
         nontriv += d["nontrivial"]
-        distinct.update(d["distinct"])
+        distinct.update(d.get("distinct") or [])
         for k, v in d["classes"].items():
             classes[k] = classes.get(k, 0) + v
         for k, v in d["counters"].items():
@@ -303,7 +303,7 @@ def main():
             khits[k] = khits.get(k, 0) + v
         for k, v in d.get("exhaustive", {}).items():
             exhaustive[k] = exhaustive.get(k, True) and v
-        for smp in d["samples"]:
+        for smp in (d.get("samples") or []):
             if len(samples) < 12:
                 samples.append(smp)
     wall = time.time() - t_start
